@@ -53,6 +53,28 @@ func isTransportCase(p *Prog, ce condEdge, name string) bool {
 	return ok && k.Value != nil && kc.Val().String() == k.Value.String()
 }
 
+// isNotTransportCase: the controlling edge "s.transportProtocol != X" (true
+// edge) or "== X" (false edge).
+func isNotTransportCase(p *Prog, ce condEdge, name string) bool {
+	bo, ok := ce.If.Cond.(*ssa.BinOp)
+	if !ok {
+		return false
+	}
+	if !((bo.Op == token.NEQ && ce.Idx == 0) || (bo.Op == token.EQL && ce.Idx == 1)) {
+		return false
+	}
+	f := fieldOrigin(bo.X)
+	if f == nil || f.Name() != "transportProtocol" {
+		return false
+	}
+	k, ok := bo.Y.(*ssa.Const)
+	if !ok {
+		return false
+	}
+	kc, ok := p.Const("pkg/common", name).(*types.Const)
+	return ok && k.Value != nil && kc.Val().String() == k.Value.String()
+}
+
 func r02_3(c *RC) {
 	p := c.P
 	rw := p.Field(protoPkg, "Session", "remoteWindowSize")
@@ -108,7 +130,7 @@ func r02_3(c *RC) {
 			}
 			stream := false
 			for _, ce := range controllingEdges(b) {
-				if isTransportCase(p, ce, "StreamTransport") {
+				if isTransportCase(p, ce, "StreamTransport") || isNotTransportCase(p, ce, "PacketTransport") {
 					stream = true
 				}
 			}
